@@ -58,7 +58,9 @@ class Gen:
         if k < 0.24: return self.text()
         if k < 0.27:
             # words with underscores and digits stay as they are, whatever the emphasis character
-            return "T" + h(r.choice(["snake_case_word", "step1_final_", "v1_beta_2", "a_b", "x_1", "_", "2_3_4", "file_name.txt"]))
+            # (no lone "_": directly followed by a footnote call or a link it may open, and would then pair with the closing-capable
+            # underscore at the end of "step1_final_" - a correct emphasis, but not an unambiguous use)
+            return "T" + h(r.choice(["snake_case_word", "step1_final_", "v1_beta_2", "a_b", "x_1", "2_3_4", "file_name.txt"]))
         if k < 0.30:
             # emphasis written tight against punctuation: an apostrophe, a hyphen, brackets, a full stop
             e = r.choice("ES") + " ( " + self.text() + " )"
